@@ -98,3 +98,21 @@ Proof.
   split; [exact (hydro_ok_length _ _ _ _ _ _ _ _ _ _ Hh)|].
   destruct (hydro_ok_altitudes _ _ _ _ _ _ _ _ _ _ Hh) as (Hs & Hhd & _). split; assumption.
 Qed.
+
+(* The whole of calculate_scale_properties up to the unit factor of its return statement: the statements before the
+   loop (g[0] = self.gravity, H[0] = k T[0] / (mu[0] g[0]); the property `gravity` regenerated as well) give the state
+   the loop starts from, and the loop run from there is the model's scale_properties. *)
+Lemma tie_surface_gravity : forall G M Rp : R, gen_surface_gravity G M Rp = gen_gravity_at_height G M Rp 0.
+Proof. intros. unfold gen_surface_gravity, gen_gravity_at_height. rewrite Rplus_0_r. reflexivity. Qed.
+
+Lemma tie_scale_properties : forall (G M Rp k t m : R) (Ts ms : list R) (P0 : R) (Prest : list R),
+  length Ts = length ms -> length Prest = S (length Ts) ->
+  altitude_loop (gen_scale_step (gen_gravity_at_height G M Rp) k) 0
+     (snd (gen_scale_init k (gen_surface_gravity G M Rp) t m)) (fst (gen_scale_init k (gen_surface_gravity G M Rp) t m))
+     P0 Prest Ts ms
+  = @scale_properties R RTNum (G * M) Rp k (t :: Ts) (m :: ms) (P0 :: Prest).
+Proof.
+  intros G M Rp k t m Ts ms P0 Prest H1 H2. unfold gen_scale_init, gen_surface_gravity. cbn [fst snd].
+  replace (G * M / (Rp * Rp)) with (G * M / ((Rp + 0) * (Rp + 0))) by (rewrite Rplus_0_r; reflexivity).
+  unfold scale_properties. exact (tie_altitude_loop G M Rp k Prest Ts ms 0 P0 t m H1 H2).
+Qed.
